@@ -13,6 +13,8 @@ ENGINE_OF = {
     'C18': 'engines.e_thr',
     'C10': 'engines.e_solve',
     'C06': 'engines.e_pa',
+    'C01': 'engines.e_nnps',
+    'C17': 'engines.e_nnps',
 }
 
 
